@@ -27,7 +27,7 @@ From Soy Require Import Model.Bytes Model.Num Model.Values Model.Ast Model.Token
   Model.AstPrint Generated.Tables Spec.ExprSyntax Proofs.ExprParserRules Proofs.LiteralProofs Proofs.ExprParserProofs Proofs.PlaceholderTextProofs.
 From Soy Require Import Model.Outcome Model.MsgId Proofs.MsgIdProofs.
 From Soy Require Import Model.Lexer Model.Parser Proofs.LexPrintMain Proofs.LexParseText Proofs.LexPrintCmd Proofs.PrintCmdText.
-From Soy Require Import Model.RawText Model.Parser Model.AstPrintCmd Spec.CmdSyntax Proofs.CmdRoundtripBase Proofs.CmdRoundtripRules Proofs.CmdRoundtrip.
+From Soy Require Import Model.RawText Model.Parser Model.AstPrintCmd Spec.CmdSyntax Proofs.CmdRoundtripBase Proofs.CmdRoundtripRules Proofs.CmdRoundtrip Proofs.ExprParserMono.
 Open Scope N_scope.
 
 (* Parsing the items of the printed expression gives back the expression itself (positions
@@ -271,37 +271,45 @@ Proof. split; [vm_compute; reflexivity|]. vm_compute. split; reflexivity. Qed.
    commands; this is the same statement for the command forms whose String() is source syntax
    the parser accepts again: raw text, print, {log}, {debugger}, {let} in both forms,
    {if}/{elseif}/{else}, {for}/{ifempty}, {switch}/{case}/{default}, {call} with data="all" /
-   data="e" and {param k: e/} / {param k}..{/param}, {css}, {msg} without {plural}, nested to any depth).
+   data="e" and {param k: e/} / {param k}..{/param}, {css}, {msg}, {plural} inside {msg}, nested to any depth).
    Model/Parser.v's itemList (parse.go itemList / textOrTag / beginTag and the command parsers,
    same next/backup/peek order as the Go code), started in ANY parser state (inside or outside a
    {msg}: flag m) that delivers the items of a well-formed body followed by "{" and an item u
    that ends the list, returns that body itself for every fuel above some bound, has consumed
    "{" and u, and leaves the items that follow; the state is unchanged but for the token plumbing
    and the log of nested scanners.
-   External functions enter with their contracts: efuel (budget of the nested expression parse of
-   data="e" / {css e, x}: enough whenever some budget is), unq (strconv.Unquote inverts
+   External functions enter with their contracts: unq (strconv.Unquote inverts
    strconv.Quote on the printer model's domain); lexq (the nested scanner) enters through
    wf_body's clause quoted_ok: it reads the printed text of the expression as the expression's items.
+   The budget of the nested expression parse of data="e" / {css e, x} is the one the model's entry
+   points use (Model/Parser.v expr_fuel = number of items + 8); that it is enough is proved
+   (Proofs/ExprParserMono.v expr_fuel_ok: termination below the measure + monotonicity in the fuel).
    {msg meaning= desc=} with raw text, html tags and command placeholders is covered ({msg} reads its
-   body with tree.inmsg set and placeholderizes it; the theorem shows the children come back).
-   Not covered: {plural} inside {msg}, templates, soydoc, namespace -- see notes/astprint-reparse.md. ---- *)
-Theorem C17_parse_body_roundtrip_partial :
-  forall (ns : bstr) (al : list (bstr * bstr)) (inlen : N) (lexq : bstr -> list tok) (unq : bstr -> option bstr) (efuel : list tok -> nat),
-  (forall ts e rest, Parses 0 ts e rest -> exists p', parse_expr (efuel ts) 0 (pst_init ts) = POk e p') ->
+   body with tree.inmsg set and placeholderizes it; the theorem shows the children come back), and
+   {plural} inside it in both forms the parser builds: as the only child of the {msg} (case bodies
+   placeholderized, recursively through nested {plural}s) and as a command of a body nested in the
+   {msg} ({msg}{log}{plural}..: case bodies stay bodies).
+   wf_body excludes only: trees the parser cannot build (see Spec/CmdSyntax.v), raw text that is not
+   in the form line joining leaves, and the file-level nodes (namespace, template, header parameter,
+   soydoc, alias), which beginTag would accept in a body but whose String() is not source syntax
+   (notes/astprint-reparse.md).  {literal}, {sp} {nil} {lb} .., {foreach}, {print e}, {let kind=}
+   read to trees whose String() is another covered form. ---- *)
+Theorem C17_parse_body_roundtrip :
+  forall (ns : bstr) (al : list (bstr * bstr)) (inlen : N) (lexq : bstr -> list tok) (unq : bstr -> option bstr),
   (forall s q, go_quote s = Some q -> unq q = Some s) ->
   forall m x until u rest,
   wf_body lexq (nameok ns al) m x -> good_until until = true -> one_of (t_typ u) until = true ->
   forall s, stream (c_p s) = body_toks x ++ T_ldelim :: u :: rest -> inv (c_p s) ->
             c_inmsg s = m -> c_ns s = ns -> c_al s = al ->
   exists p' sc', stream p' = rest /\ inv p' /\
-    exists f0, forall f, (f0 <= f)%nat -> item_list inlen lexq unq parse_expr efuel f until s = COk x (set_ps s p' sc').
+    exists f0, forall f, (f0 <= f)%nat -> item_list inlen lexq unq parse_expr expr_fuel f until s = COk x (set_ps s p' sc').
 Proof.
-  intros ns al inlen lexq unq efuel Hef Hunq m x until u rest Hwf Hg Hu s Hs Hi Hm Hns Hal.
-  destruct (parse_body_roundtrip ns al inlen lexq unq efuel Hef Hunq m x until u rest Hwf Hg Hu s (c_p s) (c_scans s) Hs Hi (conj Hm (conj Hns Hal)))
+  intros ns al inlen lexq unq Hunq m x until u rest Hwf Hg Hu s Hs Hi Hm Hns Hal.
+  destruct (parse_body_roundtrip ns al inlen lexq unq expr_fuel expr_fuel_ok Hunq m x until u rest Hwf Hg Hu s (c_p s) (c_scans s) Hs Hi (conj Hm (conj Hns Hal)))
     as (p' & sc' & H1 & H2 & _ & _ & f0 & HF).
   exists p', sc'. split; [exact H1|]. split; [exact H2|]. exists f0. intros f Hf. rewrite <- (HF f f Hf Hf), set_ps_eta. reflexivity.
 Qed.
-Print Assumptions C17_parse_body_roundtrip_partial.
+Print Assumptions C17_parse_body_roundtrip.
 
 (* every list of closing items the parser uses for a body is "good": no item that starts a
    command or text of a body can be mistaken for the end of the list *)
@@ -343,6 +351,8 @@ Proof.
   unfold key_ok, float_ok, quoted_ok, call_name_ok, nameok, plain, no_byte, run_ok.
   repeat match goal with
          | H : _ :: _ = [] |- _ => discriminate H
+         | H : false = true |- _ => discriminate H
+         | H : existsb _ _ = true |- _ => vm_compute in H; try discriminate H
          | |- _ /\ _ => split
          | |- True => exact I
          | |- exists _, _ => eexists
@@ -361,4 +371,45 @@ Proof. vm_compute. reflexivity. Qed.
 Example C17_body_roundtrip_nonvacuous :
   exists s, item_list 0 ex_lexq ex_unq parse_expr (fun _ => 20%nat) 60 u_template
               (cst_init (body_toks ex_body ++ [T_ldelim; kw pit_TemplateEnd 0; T_rdelim])) = COk ex_body s.
+Proof. eexists. vm_compute. reflexivity. Qed.
+
+(* {plural}: the only child of its {msg}, with a nested {plural} in a case body, and a {plural} that is a
+   command of a {log} inside a {msg} (its case bodies are not placeholderized) *)
+Definition ex_plural_body : node :=
+  NList 0 [ NMsg 1 0 [] (b "n items")
+              [ NMsgPlural 2 [] (NDataRef 3 (b "n") [])
+                  [ NMsgPluralCase 4 1 [ NRawText 5 (b "one "); NMsgPlaceholder 9 [] (NMsgHtmlTag 9 (b "<b>"));
+                                         NMsgPlaceholder 12 [] (NPrint 12 (NDataRef 12 (b "x") []) []) ];
+                    NMsgPluralCase 20 2 [ NMsgPlural 21 [] (NDataRef 22 (b "m") []) [] [ NRawText 23 (b "few") ] ] ]
+                  [ NRawText 30 (b "many "); NMsgPlaceholder 35 [] (NPrint 35 (NDataRef 35 (b "n") []) []) ] ];
+            NMsg 40 0 [] (b "d")
+              [ NMsgPlaceholder 41 [] (NLog 41 (NList 0 [ NMsgPlural 42 [] (NDataRef 43 (b "k") [])
+                                                           [ NMsgPluralCase 44 0 [ NRawText 45 (b "zero") ] ]
+                                                           [ NPrint 46 (NDataRef 46 (b "k") []) [] ] ])) ] ].
+
+Example C17_plural_wf_nonvacuous : wf_body ex_lexq (nameok (b "ns") []) false ex_plural_body.
+Proof.
+  cbn -[msg_raw_text rawtext_run go_quote print_node trim_space run_text run_pos split_dots in_int64].
+  unfold run_ok.
+  repeat match goal with
+         | H : _ :: _ = [] |- _ => discriminate H
+         | H : false = true |- _ => discriminate H
+         | H : existsb _ _ = true |- _ => vm_compute in H; try discriminate H
+         | |- _ /\ _ => split
+         | |- True => exact I
+         | |- forall _, _ => intro
+         | |- wf_expr _ => cbn
+         | |- (_ <= _)%Z => vm_compute; discriminate
+         | |- _ = _ => vm_compute; reflexivity
+         | |- _ <> _ => vm_compute; discriminate
+         end.
+Qed.
+
+Example C17_plural_prints_nonvacuous :
+  print_tree ex_plural_body = Some (b "{msg desc=""n items""}{plural $n}{case 1}one <b>{$x}{case 2}{plural $m}{default}few{/plural}{default}many {$n}{/plural}{/msg}{msg desc=""d""}{log}{plural $k}{case 0}zero{default}{$k}{/plural}{/log}{/msg}").
+Proof. vm_compute. reflexivity. Qed.
+
+Example C17_plural_roundtrip_nonvacuous :
+  exists s, item_list 0 ex_lexq ex_unq parse_expr expr_fuel 60 u_template
+              (cst_init (body_toks ex_plural_body ++ [T_ldelim; kw pit_TemplateEnd 0; T_rdelim])) = COk ex_plural_body s.
 Proof. eexists. vm_compute. reflexivity. Qed.
